@@ -94,6 +94,26 @@ func rebuild(t *Term, as []*Term) *Term {
 		if as[0].Op == "cs" {
 			return mkInt(smtToInt(as[0].S))
 		}
+	case "str.to_lower":
+		if as[0].Op == "cs" {
+			return mkStr(asciiLower(as[0].S))
+		}
+	case "str.to_upper":
+		if as[0].Op == "cs" {
+			return mkStr(asciiUpper(as[0].S))
+		}
+	case "str.in_re":
+		if as[0].Op == "cs" && as[1].Op == "raw" && as[1].Name == "(re.+ (re.range \"a\" \"z\"))" {
+			if as[0].S == "" {
+				return tFalse
+			}
+			for _, c := range as[0].S {
+				if c < 'a' || c > 'z' {
+					return tFalse
+				}
+			}
+			return tTrue
+		}
 	case "str.replace_all":
 		if as[0].Op == "cs" && as[1].Op == "cs" && as[2].Op == "cs" && as[1].S != "" {
 			return mkStr(strings.ReplaceAll(as[0].S, as[1].S, as[2].S))
@@ -203,7 +223,7 @@ type assignment map[*Term]*Term // var -> constant term
 
 func evalTerm(t *Term, m assignment) (*Term, bool) {
 	switch t.Op {
-	case "cs", "ci", "cb":
+	case "cs", "ci", "cb", "raw":
 		return t, true
 	case "var":
 		c, ok := m[t]
@@ -487,4 +507,24 @@ func (ex *Exec) refuted(alt *Term) bool {
 	}
 	ex.substMemo = saveMemo
 	return res
+}
+
+func asciiLower(s string) string {
+	b := []byte(s)
+	for i, c := range b {
+		if c >= 'A' && c <= 'Z' {
+			b[i] = c + 32
+		}
+	}
+	return string(b)
+}
+
+func asciiUpper(s string) string {
+	b := []byte(s)
+	for i, c := range b {
+		if c >= 'a' && c <= 'z' {
+			b[i] = c - 32
+		}
+	}
+	return string(b)
 }
